@@ -694,6 +694,11 @@ func init() {
 						// where the offset is captured: here, or - when a helper returns the section's
 						// span in a struct - where the helper takes it
 						var capture ssa.Instruction = st
+						// (the offset may be taken into a local first and recorded later: the capture is
+						// where the writer's count is read)
+						if cv, ok := stripConv(st.Val).(*ssa.Call); ok && cv.Parent() == fn && cv.Call.StaticCallee() != nil && cv.Call.StaticCallee().Name() == "Count" {
+							capture = cv
+						}
 						em := emitters
 						if hv, ok := stripConv(c.throughStruct(st.Val)).(ssa.Instruction); ok && hv.Parent() != fn && c.inRoot(hv.Parent()) {
 							capture = hv
